@@ -391,10 +391,16 @@ class CRDTStore(Entity):
                 local_crdt.merge(remote_crdt)
                 self._keys_merged += 1
             else:
-                # Create from remote state
+                # Create from remote state. The new local replica must carry
+                # this store's own node id (as in get_or_create): a copy that
+                # keeps the sender's id would record later local updates under
+                # the sender's identity (shared counter slot, colliding OR-set
+                # tags) and merges would then lose them.
                 remote_crdt = self._reconstruct_crdt(remote_dict)
                 if remote_crdt is not None:
-                    self._crdts[key] = remote_crdt
+                    local_crdt = type(remote_crdt)(self.name)
+                    local_crdt.merge(remote_crdt)
+                    self._crdts[key] = local_crdt
                     self._keys_merged += 1
 
     def _reconstruct_crdt(self, data: dict) -> CRDT | None:
